@@ -101,6 +101,11 @@ def _run_model(case, ctx):
     # a few pressures shared by every case (different isotherms of one model evaluated at exactly the same pressure in one process)
     wlo, whi = GM.pressure_window(name, P)
     ps = sorted(set(list(ps) + [x for x in (0.01, 0.05, 0.3, 0.5, 1.0) if wlo < x < whi * 0.98]))
+    if name in ("Langmuir", "DSLangmuir", "TSLangmuir") and case["seed"] % 3 == 1:
+        # far on the plateau of a strongly adsorbing site (K p of 1e12 ... 1e15): the integral keeps growing like n_m ln(K p)
+        kmax = max(v for k_, v in P.items() if k_.startswith("K"))
+        ps = sorted(set(ps + [float("%.4g" % (10**e_ / kmax)) for e_ in (12.3, 13.7, 15.2)]))
+        ctx.count("interference", name + "/deep-plateau-pressures")
     if name in ("BET", "GAB"):
         # the last percent before the pole (N p or K p = 1): still inside the validity range
         pole = 1.0 / (P["N"] if name == "BET" else P["K"])
@@ -382,6 +387,21 @@ def _run_point(case, ctx):
     ctx.case(["point", dg, "loading-unit"])
     if got3[0] != "ok" or not close(_f(got3[1]), _point_reference(ps, ls, queries[3][1]) * 1e-3, 1e-9):
         ctx.violation("PointIsotherm.spreading_pressure_at/loading-unit", "loading unit argument not honoured", got=got3[1], expected=_point_reference(ps, ls, queries[3][1]) * 1e-3)
+    # the record is converted to another loading unit after it was queried (its interpolators exist): the integral is that of the
+    # record as it is now
+    if case["seed"] % 2 == 0:
+        hist = pygaps.PointIsotherm(pressure=pp, loading=ll, branch=[bool(b) for b in bb], material="verif-c11p", adsorbate=ads_name, temperature=T, **units)
+        qh = queries[3][1]
+        first = _call(hist.spreading_pressure_at, qh)
+        conv = _call(hist.convert_loading, basis_to="molar", unit_to="mol")
+        later = _call(hist.spreading_pressure_at, qh)
+        ctx.case(["point", dg, "queried-then-converted"])
+        ctx.count("point_histories", "queried-then-loading-unit-converted")
+        if first[0] == "ok" and conv[0] == "ok":
+            exp_h = _point_reference(ps, ls, qh) * 1e-3
+            if later[0] != "ok" or not close(_f(later[1]), exp_h, 1e-9):
+                ctx.violation("PointIsotherm.spreading_pressure_at/after-loading-unit-conversion", "after a permanent change of the loading unit the integral is not that of the converted record", got=later[1], expected=exp_h,
+                              before_conversion=first[1])
     # above the range: refused unless a fill rule is given (then: plateau at the fill value)
     above = ps[-1] * 1.5
     fresh = pygaps.PointIsotherm(pressure=pp, loading=ll, branch=[bool(b) for b in bb], material="verif-c11p", adsorbate=ads_name, temperature=T, **units)
